@@ -146,7 +146,7 @@ func (nr *netRun) api(n *Node, kind string, x *xfer, f func() error) *appOp {
 		c.Returned = true
 		return op
 	}
-	if kind == "UpdateValidationStatus" && x.opened {
+	if (kind == "UpdateValidationStatus" || kind == "Restart") && x.opened {
 		// the state the decision will be taken on (the resume rule of C08 compares the new limit with this progress)
 		if ps, ok := n.State(x.chid); ok {
 			op.Pre, op.PreOK = ps, true
@@ -305,7 +305,7 @@ func (nr *netRun) validateNew(n *Node, kind string, chid datatransfer.ChannelID)
 		}
 		switch x.newOutcome {
 		case 1:
-			res.Accepted = false
+			res.Accepted = false // (ForcePause stays as drawn: a rejection may carry a pause decision as well)
 			if x.rejectResult {
 				res.VoucherResult = &datatransfer.TypedVoucher{Voucher: basicnode.NewString(fmt.Sprintf("vr-reject-%d", x.idx)), Type: "R0"}
 			}
@@ -325,6 +325,7 @@ func (nr *netRun) validateRestart(n *Node, chid datatransfer.ChannelID, st datat
 		switch x.restartOutcome {
 		case 1:
 			res.Accepted = false
+			res.ForcePause = x.forcePause // a rejection may carry a pause decision as well; it is a rejection all the same
 			x.rejectedByB = true
 		case 2:
 			x.rejectedByB = true
@@ -573,8 +574,22 @@ func (nr *netRun) installApps() {
 			})
 		case datatransfer.BeginFinalizing:
 			d := time.Duration(1+r.Intn(4000)) * time.Millisecond
+			keepFirst := r.Intn(3) == 0
+			keepLimit := uint64(0)
+			if r.Intn(2) == 0 {
+				keepLimit = 1 << 40 // a limit far above anything transferred
+			}
+			d2 := time.Duration(1+r.Intn(3000)) * time.Millisecond
 			r.Op("B", "app:finalize", func() {
 				simrt.Sleep(d)
+				if keepFirst {
+					// an accepting update that still requires finalization (e.g. re-sending the terms with an intermediate
+					// voucher result) does not release the responder
+					keep := datatransfer.ValidationResult{Accepted: true, RequiresFinalization: true, DataLimit: keepLimit}
+					op := nr.api(b, "UpdateValidationStatus", x, func() error { return b.Mgr.UpdateValidationStatus(context.Background(), chid, keep) })
+					op.Res = keep
+					simrt.Sleep(d2)
+				}
 				res := datatransfer.ValidationResult{Accepted: true}
 				op := nr.api(b, "UpdateValidationStatus", x, func() error { return b.Mgr.UpdateValidationStatus(context.Background(), chid, res) })
 				op.Res = res
@@ -1246,7 +1261,13 @@ func init() {
 	}
 	// the per-event stream oracles of C03 (event classes) and C07 (totals never decrease; conservation through C01's
 	// totals) also run on every real transfer
-	Register("C03", Stratum{Name: "net-mixed", Weight: 2, Fn: netTransfer(mixCfg)})
+	finCfg := func(r *RunCtx) netCfg {
+		c := base(r)
+		c.finalization = true
+		c.limits, c.pauses, c.vouchers = r.Intn(3) == 0, r.Intn(3) == 0, r.Intn(3) == 0
+		return c
+	}
+	Register("C03", Stratum{Name: "net-mixed", Weight: 1, Fn: netTransfer(mixCfg)}, Stratum{Name: "net-finalization", Weight: 2, Fn: netTransfer(finCfg)})
 	Register("C07", Stratum{Name: "net-pauses", Weight: 1, Fn: netTransfer(pausesCfg)}, Stratum{Name: "net-mixed", Weight: 1, Fn: netTransfer(mixCfg)})
 	Register("C08", Stratum{Name: "net-limits-and-revalidation", Weight: 3, Fn: netTransfer(limitsCfg)})
 	Register("C11", Stratum{Name: "net-pauses", Weight: 4, Fn: netTransfer(pausesCfg)}, Stratum{Name: "net-mixed", Weight: 1, Fn: netTransfer(mixCfg)})
